@@ -42,10 +42,18 @@ KF_SIGN = "KF-C02-sign-forcing"
 KF_FIX = "KF-C05-fix-stress"
 K_STALE = "stale-tension-on-excluded-interface"
 K_LSQX = "lsq-with-exclusion-raises"
+K_LSQLIN = "lsq_linear-underflow-raises"          # forsys' np.seterr(all='raise') + scipy lsq_linear touching the bound 0
+K_PNONE = "solve_pressure-without-method-raises"
 
 
 def _fs():
     return gen.forsys_modules()
+
+
+def _fsenv():
+    """numpy error state in which forsys code runs in a normal process: `import forsys` (and every solve) executes
+    np.seterr(all='raise').  The harness' own numerics run under numpy's defaults (see _run_case)."""
+    return np.errstate(all="raise")
 
 
 class _Timeout(Exception):
@@ -306,8 +314,9 @@ def _fail(spec, name, detail, key=None):
 
 def _new_forsys(S, cm=False, guess=None):
     fs = _fs()
-    frames = series_frames(S)
-    F = fs.ForSys(frames, cm=cm, initial_guess=guess if guess else {})
+    with _fsenv():
+        frames = series_frames(S)
+        F = fs.ForSys(frames, cm=cm, initial_guess=guess if guess else {})
     return F, frames
 
 
@@ -376,7 +385,8 @@ def _case_b13(spec):
             n_part += bool(has)
             n_nopart += (not has)
             try:
-                got = np.asarray(F.mesh.calculate_velocity(vid, t), dtype=float)
+                with _fsenv():
+                    got = np.asarray(F.mesh.calculate_velocity(vid, t), dtype=float)
             except Exception as e:                                    # noqa
                 fails.append(_fail(spec, "calculate_velocity raises", f"vertex {vid} frame {t}: {type(e).__name__}: {e}"))
                 continue
@@ -391,7 +401,8 @@ def _case_b13(spec):
     used_total = 0
     for t in range(S.n):
         try:
-            F.build_force_matrix(when=t)
+            with _fsenv():
+                F.build_force_matrix(when=t)
         except Exception as e:                                        # noqa
             fails.append(_fail(spec, "build_force_matrix raises", f"frame {t}: {type(e).__name__}: {e}"))
             sysv_exp.append(None)
@@ -427,7 +438,7 @@ def _case_b13(spec):
                 continue
             exp_b = exp_b / avg * kw.get("velocity_normalization", 1)
             try:
-                with np.errstate(**_NP_ERR):
+                with _fsenv():
                     b, got_avg = fm.set_velocity_matrix(F.mesh, **kw)
             except Exception as e:                                    # noqa
                 fails.append(_fail(spec, "set_velocity_matrix raises", f"frame {t} {kw}: {type(e).__name__}: {e}"))
@@ -444,7 +455,7 @@ def _case_b13(spec):
                 fails.append(_fail(spec, f"set_velocity_matrix mean speed ({mode})",
                                    f"frame {t} {kw}: returned {got_avg}, mean junction speed of the used junctions {avg}"))
     try:
-        with np.errstate(**_NP_ERR):
+        with _fsenv():
             sysv = list(F.get_system_velocity_per_frame())
         for t, (g, e) in enumerate(zip(sysv, sysv_exp)):
             if e is None or e == 0:
@@ -562,8 +573,9 @@ def _case_b12(spec):
                 for v in sorted(S.J[t0]):
                     a = S.vmap[t0][v]
                     try:
-                        fwd = F.mesh.get_point_id_by_map(a, t0, t1)
-                        back = F.mesh.get_point_id_by_map(fwd, t1, t0)
+                        with _fsenv():
+                            fwd = F.mesh.get_point_id_by_map(a, t0, t1)
+                            back = F.mesh.get_point_id_by_map(fwd, t1, t0)
                     except Exception as e:                            # noqa
                         fails.append(_fail(spec, "get_point_id_by_map raises", f"{a} {t0}->{t1}: {type(e).__name__}: {e}"))
                         break
@@ -680,15 +692,41 @@ def recovery_tolerances(A, Af, T):
     return out
 
 
-def _b03_pose(ts, rng, tries=80):
-    """rotation of the tissue for which no interface end is in the sign-forcing class; None if none found"""
-    for k in range(tries):
-        rot = 0.0 if (k == 0 and not ts.get("rot")) else round(float(rng.uniform(0, 2 * math.pi)), 5)
-        t = make_base(dict(ts, rot=rot))
-        internal, used, _ = inferred_system(t)
-        if not sign_forcing_ends(t, internal, used):
-            return rot, k
-    return None, tries
+def _b03_resolve(ts, seed, attempts=10, poses=40):
+    """tissue (the given one, else the same family with a shifted seed) and rotation such that
+    (a) no interface end is in the sign-forcing class, (b) the system is identifiable and its rounding tolerance stays
+    below the cap.  Returns (resolved tissue spec | None, statistics)"""
+    rng = np.random.default_rng([int(seed), 1])
+    st = dict(candidates=0, no_pose=0, unidentifiable=0, ill_conditioned=0, pose_tries=0)
+    for att in range(attempts):
+        cand = dict(ts, seed=int(ts["seed"]) + 1009 * att)
+        st["candidates"] += 1
+        t0 = make_base(cand)
+        internal, used, _ = inferred_system(t0)
+        E, J = len(internal), len(used)
+        if J == 0 or 2 * J < E or any(len(it["path"]) == 2 and it["kind"] != "straight" for it in internal):
+            st["unidentifiable"] += 1
+            continue
+        found = None
+        for k in range(poses):
+            rot = 0.0 if k == 0 else round(float(rng.uniform(0, 2 * math.pi)), 5)
+            t = make_base(dict(cand, rot=rot))
+            internal, used, _ = inferred_system(t)
+            st["pose_tries"] += 1
+            if not sign_forcing_ends(t, internal, used):
+                found = (rot, t, internal, used)
+                break
+        if found is None:
+            st["no_pose"] += 1
+            continue
+        rot, t, internal, used = found
+        A, _ = analytic_matrix(internal, used)
+        tols = recovery_tolerances(A, A, np.ones(A.shape[1]))
+        if "M" not in tols or float(tols["M"]["tol"].max()) > 0.8 * TOL_CAP or tols["M"]["norm2"] > 0.3:
+            st["ill_conditioned"] += 1
+            continue
+        return dict(cand, rot=rot), st
+    return None, st
 
 
 def _case_b03(spec):
@@ -697,13 +735,12 @@ def _case_b03(spec):
     rng = np.random.default_rng([int(spec["seed"]), 2])
     allow_kf = bool(spec.get("allow_kf"))
     if "rot" not in ts and not allow_kf:
-        rot, tries = _b03_pose(ts, np.random.default_rng([int(spec["seed"]), 1]))
-        info["pose_tries"] = tries
-        if rot is None:
-            info["rejected"] = "no pose outside the sign-forcing class"
-            info["kf_excluded"] = True
+        ts, st = _b03_resolve(ts, spec["seed"])
+        info["resolve"] = st
+        if ts is None:
+            info["rejected"] = "no admissible tissue/pose: " + json.dumps(st)
+            info["kf_excluded"] = st["no_pose"] > 0
             return dict(spec=spec, info=info, fails=fails)
-        ts["rot"] = rot
     spec = dict(spec, tissue=ts)                                    # failures carry the resolved pose
     base = make_base(ts)
     info["hash"] = base.shape_hash()
@@ -794,7 +831,8 @@ def _case_b03(spec):
             kw["method"] = method
         label = f"method={method or 'default'} adimensional={adim}"
         try:
-            F.build_force_matrix(when=k)
+            with _fsenv():
+                F.build_force_matrix(when=k)
             fm = F.force_matrices[k]
             if Af_cache is None:
                 cols = [canon(be) for be in fm.big_edges_to_use]
@@ -813,12 +851,16 @@ def _case_b03(spec):
                 info["max_tangent_error"] = dA
                 tols = recovery_tolerances(A, Af if dA <= GATE_DA else A, T)
                 info["smin"] = {k_: round(v["smin"], 5) for k_, v in tols.items()}
-            F.solve_stress(when=k, **kw)
+            with _fsenv():
+                F.solve_stress(when=k, **kw)
             forces = F.frames[k].forces
             ibe = [canon(be.get_vertices_ids()) for be in F.frames[k].internal_big_edges]
             got = np.array([forces[i] for i in range(len(ibe))], dtype=float)
         except Exception as e:                                      # noqa
-            fails.append(_fail(spec, f"inference raises ({label})", f"{type(e).__name__}: {e}"))
+            if method == "lsq_linear" and isinstance(e, FloatingPointError):
+                fails.append(_fail(spec, "solve_stress(method='lsq_linear') raises FloatingPointError", f"{label}: {e}", key=K_LSQLIN))
+            else:
+                fails.append(_fail(spec, "inference raises", f"{label}: {type(e).__name__}: {e}"))
             continue
         sysk = "N" if method == "lsq_linear" else "M"
         if sysk not in tols:
@@ -842,9 +884,9 @@ def _case_b03(spec):
             i = int(np.argmax(err / tol_v))
             where = "first" if k == 0 else ("last (backward difference)" if last else "middle")
             kf = bool(kf_ends) or dA > GATE_DA
-            name = f"tensions not recovered at the {where} frame ({label})"
+            name = f"tensions not recovered at the {where} frame"
             fails.append(_fail(spec, name if not kf else "tensions not recovered when an interface end is in the sign-forcing class",
-                               f"{name}: interface {i}: got {g[i]:.5f} expected {e_[i]:.5f} (tolerance {tol_v[i]:.2e}); "
+                               f"{name} ({label}): interface {i}: got {g[i]:.5f} expected {e_[i]:.5f} (tolerance {tol_v[i]:.2e}); "
                                f"{int(np.sum(err > tol_v))} of {len(err)} outside; max error {err.max():.3e}; "
                                f"max |forsys tangent - analytic| {dA:.2e}; sign-forcing ends {len(kf_ends)}; times {info['times']}",
                                key=KF_SIGN if kf else None))
@@ -860,9 +902,422 @@ def _case_b03(spec):
 
 
 # ======================================================================================================
+# B10  histories
+# ======================================================================================================
+LIMIT_CANDIDATES = (0.8 * math.pi, 0.75 * math.pi, 0.7 * math.pi)
+
+
+def _build_kwargs(op, limit):
+    return dict(angle_limit=(limit if op.get("al") else np.inf), circle_fit_method=op.get("fit", "dlite"))
+
+
+def _solve_kwargs(op):
+    kw = {}
+    if op.get("m"):
+        kw["method"] = op["m"]
+    if op.get("b"):
+        kw["b_matrix"] = op["b"]
+        kw["adimensional_velocity"] = bool(op.get("ad"))
+    if "an" in op:
+        kw["allow_negatives"] = bool(op["an"])
+    return kw
+
+
+def _psolve_kwargs(op):
+    kw = {}
+    if op.get("m"):
+        kw["method"] = op["m"]
+    if "an" in op:
+        kw["allow_negatives"] = bool(op["an"])
+    return kw
+
+
+def _apply(F, op, limit):
+    """run one operation on F; returns None or the exception"""
+    try:
+        with _fsenv():
+            return _apply_inner(F, op, limit)
+    except _Timeout:
+        raise
+    except Exception as e:                                            # noqa
+        return e
+
+
+def _apply_inner(F, op, limit):
+    if True:
+        kind = op["op"]
+        if kind == "bf":
+            F.build_force_matrix(when=op["t"], **_build_kwargs(op, limit))
+        elif kind == "ss":
+            F.solve_stress(when=op["t"], **_solve_kwargs(op))
+        elif kind == "bp":
+            F.build_pressure_matrix(when=op["t"])
+        elif kind == "sp":
+            F.solve_pressure(when=op["t"], **_psolve_kwargs(op))
+        elif kind == "sv":
+            if op.get("al"):
+                F.get_system_velocity_per_frame(angle_limit=limit)
+            else:
+                F.get_system_velocity_per_frame()
+        else:
+            raise ValueError(kind)
+        return None
+
+
+def _num(x):
+    if x is None:
+        return None
+    try:
+        return float(x)
+    except (TypeError, ValueError):
+        return repr(x)
+
+
+def observe(F, t):
+    """plain-data observables of frame t"""
+    fr = F.frames[t]
+    forces = F.forces.get(t) if isinstance(F.forces, dict) else "not a dict"
+    ff = getattr(fr, "forces", None)
+    o = dict(forces=None if forces is None else ({str(k): _num(v) for k, v in forces.items()} if isinstance(forces, dict) else repr(forces)),
+             frame_forces=None if ff is None else {str(k): _num(v) for k, v in ff.items()})
+    with _fsenv():
+        tb = fr.get_tensions(with_border=True)
+        ti = fr.get_tensions(with_border=False)
+        o["table_all"] = dict(id=[int(x) for x in tb["id"]], stress=[_num(x) for x in tb["stress"]])
+        o["table_int"] = dict(id=[int(x) for x in ti["id"]], stress=[_num(x) for x in ti["stress"]])
+        o["big"] = {int(k): _num(be.tension) for k, be in fr.big_edges.items()}
+        o["small"] = {int(k): _num(e.tension) for k, e in fr.edges.items()}
+        o["cellp"] = {int(k): _num(c.pressure) for k, c in fr.cells.items()}
+        pr = F.pressures.get(t) if isinstance(F.pressures, dict) else "not a dict"
+        o["pressures"] = None if pr is None else ([_num(x) for x in pr] if isinstance(pr, (list, tuple, np.ndarray)) else repr(pr))
+        try:
+            pt = fr.get_pressures()
+            o["ptable"] = dict(id=[int(x) for x in pt["id"]], pressure=[_num(x) for x in pt["pressure"]])
+        except Exception as e:                                        # noqa
+            o["ptable"] = f"{type(e).__name__}"
+    return o
+
+
+def _same(a, b, rel, scale):
+    if a is None or b is None or isinstance(a, str) or isinstance(b, str):
+        return a == b
+    if isinstance(a, float) and isinstance(b, float):
+        if math.isnan(a) or math.isnan(b):
+            return math.isnan(a) and math.isnan(b)
+        return abs(a - b) <= rel * max(scale, 1e-300)
+    return a == b
+
+
+def _scale(vals):
+    v = [abs(x) for x in vals if isinstance(x, float) and math.isfinite(x)]
+    return max(v, default=1.0) or 1.0
+
+
+def _diff_map(a, b, rel):
+    """keys whose values differ between two {key: number} maps / equal-length lists"""
+    if a is None or b is None or isinstance(a, str) or isinstance(b, str):
+        return [] if a == b else ["<whole>"]
+    if isinstance(a, list):
+        if len(a) != len(b):
+            return ["<length>"]
+        a, b = dict(enumerate(a)), dict(enumerate(b))
+    if set(a) != set(b):
+        return ["<keys>"]
+    sc = _scale(list(b.values()))
+    return [k for k in a if not _same(a[k], b[k], rel, sc)]
+
+
+def _frame_structure(F, t):
+    fr = F.frames[t]
+    internal = [be.big_edge_id for be in fr.internal_big_edges]
+    edges_of = {int(k): list(be.edges) for k, be in fr.big_edges.items()}
+    return internal, edges_of
+
+
+def _excluded(F, t):
+    """internal interfaces excluded by the angle limit of the force matrix currently stored for frame t"""
+    fm = F.force_matrices[t]
+    out = []
+    for be in F.frames[t].internal_big_edges:
+        ids = be.get_vertices_ids()
+        if ids[0] in fm.deletes and ids[-1] in fm.deletes:
+            out.append(be.big_edge_id)
+    return out
+
+
+def _static_clauses(F, t, excluded):
+    """static part of C10 on frame t after its stress solve; list of (name, detail)"""
+    out = []
+    fr = F.frames[t]
+    forces = F.forces.get(t) if isinstance(F.forces, dict) else None
+    internal = list(fr.internal_big_edges)
+    if not isinstance(forces, dict):
+        return [("result store: forces of the solved frame are not under its key", f"F.forces[{t}] = {forces!r}")]
+    if getattr(fr, "forces", None) is not forces and getattr(fr, "forces", None) != forces:
+        out.append(("frame.forces differs from the solver's store", f"frame {t}"))
+    if sorted(forces) != list(range(len(internal))):
+        out.append(("reported tensions are not indexed by the internal interfaces", f"frame {t}: keys {sorted(forces)[:6]}.. for {len(internal)} internal interfaces"))
+        return out
+    for i, be in enumerate(internal):
+        v = float(forces[i])
+        if be.big_edge_id in excluded:
+            if v != -1:
+                out.append(("excluded interface is not reported as -1", f"frame {t} interface {i}: {v}"))
+            continue
+        if v == -1 and excluded:
+            out.append(("non-excluded interface reported as -1", f"frame {t} interface {i}"))
+        sc = max(abs(v), 1e-300)
+        if abs(float(be.tension) - v) > 1e-9 * sc:
+            out.append(("i-th reported tension differs from the tension stored on the i-th internal interface",
+                        f"frame {t} interface {i}: reported {v}, BigEdge.tension {be.tension}"))
+        bad = [e for e in be.edges if abs(float(fr.edges[e].tension) - v) > 1e-9 * sc]
+        if bad:
+            out.append(("i-th reported tension differs from the tension of the interface's mesh edges",
+                        f"frame {t} interface {i}: reported {v}, mesh edges {[(e, fr.edges[e].tension) for e in bad[:3]]}"))
+    int_ids = {be.big_edge_id for be in internal}
+    for k, be in fr.big_edges.items():
+        if k in int_ids:
+            continue
+        if float(be.tension) != 0 or any(float(fr.edges[e].tension) != 0 for e in be.edges):
+            out.append(("external interface does not stay at zero", f"frame {t} interface {k}: {be.tension}"))
+            break
+    with _fsenv():
+        ti = fr.get_tensions(with_border=False)
+        tb = fr.get_tensions(with_border=True)
+    if [int(x) for x in ti["id"]] != [be.big_edge_id for be in internal]:
+        out.append(("tension table does not list exactly the internal interfaces in order", f"frame {t}: {list(ti['id'])[:8]}"))
+    elif any(float(a) != float(be.tension) for a, be in zip(ti["stress"], internal)):
+        out.append(("tension table values differ from the stored tensions", f"frame {t}"))
+    if [int(x) for x in tb["id"]] != [int(k) for k in fr.big_edges]:
+        out.append(("full tension table does not list all interfaces in order", f"frame {t}"))
+    return out
+
+
+def _static_pressure(F, t):
+    """each cell carries its own pressure; the solver's store holds frame t's pressures under key t"""
+    out = []
+    fr = F.frames[t]
+    if True:
+        pr = F.pressures.get(t) if isinstance(F.pressures, dict) else None
+        if not isinstance(pr, (list, tuple, np.ndarray)) or len(pr) != len(fr.cells):
+            out.append(("result store: pressures of the solved frame are not under its key", f"F.pressures[{t}] = {str(pr)[:80]}"))
+        else:
+            for pos, (cid, c) in enumerate(fr.cells.items()):
+                if not _same(_num(c.pressure), _num(pr[pos]), 1e-12, abs(float(pr[pos]))):
+                    out.append(("cell does not carry its own pressure", f"frame {t} cell {cid}: {c.pressure} vs store {pr[pos]}"))
+                    break
+    return out
+
+
+def _resolve_limit(S, n, candidates=None, need_frame=None):
+    """first candidate angle limit that excludes at least one internal interface in some frame (in frame `need_frame`
+    if given) and keeps >= 3 in all"""
+    F, _ = _new_forsys(S)
+    best = None
+    for cand in (candidates or LIMIT_CANDIDATES):
+        ex, keep = [], []
+        for t in range(n):
+            with _fsenv():
+                F.build_force_matrix(when=t, angle_limit=cand)
+            e = len(_excluded(F, t))
+            ex.append(e)
+            keep.append(len(F.frames[t].internal_big_edges) - e)
+        if best is None:
+            best = (cand, ex)
+        if (sum(ex) if need_frame is None else ex[need_frame]) > 0 and min(keep) >= 3:
+            return cand, ex
+    return best
+
+
+def _case_b10(spec):
+    fails, info = [], dict(obs=[])
+    S = make_series(spec)
+    n = S.n
+    info["hash"] = S.base.shape_hash()
+    if spec.get("limit") is None:
+        limit, ex = _resolve_limit(S, n, spec.get("limit_candidates"), spec.get("limit_frame"))
+        spec = dict(spec, limit=float(limit))
+        info["excluded_per_frame"] = ex
+    limit = float(spec["limit"])
+    ops = spec["ops"]
+    # ---- history ------------------------------------------------------------------------------
+    F, _ = _new_forsys(S)
+    cur_build = {}                       # t -> build kwargs of the force matrix currently stored
+    last_ss, ss_count = {}, Counter()    # t -> (build kwargs, solve op) of the last successful stress solve
+    stress_at_pbuild = {}                # t -> last_ss[t] (or None) when the stored pressure matrix was built
+    last_sp = {}                         # t -> (stress args at its matrix build, psolve op)
+    n_ss_before_sp = {}
+    raised = []
+    for i, op in enumerate(ops):
+        err = _apply(F, op, limit)
+        if err is not None:
+            raised.append((i, op, err, dict(cur_build[op["t"]]) if op.get("t") in cur_build else None))
+            continue
+        k = op["op"]
+        if k == "bf":
+            cur_build[op["t"]] = dict(al=bool(op.get("al")), fit=op.get("fit", "dlite"))
+        elif k == "sv":
+            for t in range(n):
+                cur_build[t] = dict(al=bool(op.get("al")), fit="dlite")
+        elif k == "ss":
+            last_ss[op["t"]] = (dict(cur_build[op["t"]]), op)
+            ss_count[op["t"]] += 1
+        elif k == "bp":
+            stress_at_pbuild[op["t"]] = last_ss.get(op["t"])
+            n_ss_before_sp[op["t"]] = ss_count[op["t"]]
+        elif k == "sp":
+            last_sp[op["t"]] = (stress_at_pbuild.get(op["t"]), op, n_ss_before_sp.get(op["t"], 0))
+    obs_h = {t: observe(F, t) for t in range(n)}
+    excl_h = {t: (_excluded(F, t) if t in F.force_matrices else []) for t in range(n)}
+
+    def fresh_run(seq):
+        G, _ = _new_forsys(S)
+        for op in seq:
+            e = _apply(G, op, limit)
+            if e is not None:
+                return G, (op, e)
+        return G, None
+
+    # ---- operations that raised: must raise on a fresh object as well -----------------------------
+    for i, op, err, build_then in raised:
+        t = op.get("t", 0)
+        pre = []
+        if op["op"] == "ss":
+            pre = [dict(op="bf", t=t, **build_then)] if build_then else []
+        elif op["op"] == "sp":
+            pre = [dict(op="bp", t=t)]
+        G, e2 = fresh_run(pre + [op])
+        probe = spec.get("probe")
+        if e2 is not None and type(e2[1]) is type(err):
+            if probe == "fix_stress" and op.get("m") == "fix_stress":
+                fails.append(_fail(spec, "solve_stress(method='fix_stress') raises", f"{type(err).__name__}: {err}", key=KF_FIX))
+            elif op["op"] == "ss" and op.get("m") == "lsq_linear" and isinstance(err, FloatingPointError):
+                fails.append(_fail(spec, "solve_stress(method='lsq_linear') raises FloatingPointError",
+                                   f"step {i} {op} (build {build_then}): {err} (also on a fresh object)", key=K_LSQLIN))
+            elif probe == "pressure_default" and op["op"] == "sp" and not op.get("m"):
+                fails.append(_fail(spec, "solve_pressure without method raises", f"{type(err).__name__}: {err}", key=K_PNONE))
+            elif probe == "lsq_exclusion" and op.get("m") == "lsq":
+                fails.append(_fail(spec, "solve_stress(method='lsq') raises when the angle limit excludes interfaces",
+                                   f"{type(err).__name__}: {err}; excluded interfaces in frame {t}: {len(excl_h.get(t, []))}", key=K_LSQX))
+            else:
+                fails.append(_fail(spec, f"operation raises ({op['op']})", f"step {i} {op}: {type(err).__name__}: {err} (also on a fresh object)"))
+        else:
+            fails.append(_fail(spec, f"operation raises only after the history ({op['op']})",
+                               f"step {i} {op}: {type(err).__name__}: {err}; fresh object: {e2[1] if e2 else 'no exception'}"))
+    # ---- references ---------------------------------------------------------------------------------
+    compared = 0
+    G0 = None
+    for t in range(n):
+        oh = obs_h[t]
+        tens_keys = ("forces", "frame_forces", "table_all", "table_int", "big", "small")
+        pres_keys = ("cellp", "pressures", "ptable")
+        # tensions
+        if t in last_ss:
+            build, sop = last_ss[t]
+            G, e = fresh_run([dict(op="bf", t=t, **build), sop])
+            if e is not None:
+                fails.append(_fail(spec, "reference run raises", f"frame {t}: {e[0]} -> {type(e[1]).__name__}: {e[1]}"))
+                continue
+            ref = observe(G, t)
+            rel = 1e-6 if sop.get("m") == "lsq" else 1e-9
+            excluded = set(_excluded(G, t))
+            _, edges_of = _frame_structure(G, t)
+            ex_edges = {e_ for b in excluded for e_ in edges_of[b]}
+            earlier = ss_count[t] > 1
+            for name, detail in _static_clauses(F, t, excluded):
+                fails.append(_fail(spec, "static: " + name, detail + f"; last solve {sop}, build {build}"))
+            for key in tens_keys:
+                a, b = oh[key], ref[key]
+                if key in ("table_all", "table_int") and isinstance(a, dict) and isinstance(b, dict):
+                    if a["id"] != b["id"]:
+                        fails.append(_fail(spec, f"history changes {key} ids", f"frame {t}"))
+                        continue
+                    a, b = dict(zip(a["id"], a["stress"])), dict(zip(b["id"], b["stress"]))
+                bad = _diff_map(a, b, rel)
+                if not bad:
+                    continue
+                if key == "small":
+                    stale = [k_ for k_ in bad if k_ in ex_edges]
+                elif key in ("big", "table_all", "table_int"):
+                    stale = [k_ for k_ in bad if k_ in excluded]
+                else:
+                    stale = []
+                other = [k_ for k_ in bad if k_ not in stale]
+                hist = f"history {ops}; last solve of frame {t}: build {build}, {sop}"
+                if stale and earlier:
+                    fails.append(_fail(spec, f"excluded interface keeps an earlier solve's tension ({key})",
+                                       f"frame {t}: {len(stale)} entries, e.g. {stale[0]}: after history {a[stale[0]]}, fresh object {b[stale[0]]}; {hist}",
+                                       key=K_STALE))
+                elif stale:
+                    other = bad
+                if other:
+                    k0 = other[0]
+                    va = a.get(k0) if isinstance(a, dict) else (a[k0] if isinstance(a, list) and isinstance(k0, int) else a)
+                    vb = b.get(k0) if isinstance(b, dict) else (b[k0] if isinstance(b, list) and isinstance(k0, int) else b)
+                    fails.append(_fail(spec, f"history changes what is reported ({key})",
+                                       f"frame {t}: {len(other)} entries differ, e.g. {k0}: after history {str(va)[:80]}, fresh object {str(vb)[:80]}; {hist}"))
+            compared += 1
+        else:
+            if G0 is None:
+                G0, _ = fresh_run([])
+            ref = observe(G0, t)
+            for key in tens_keys:
+                bad = _diff_map(oh[key] if not isinstance(oh[key], dict) or "id" not in oh[key] else oh[key]["stress"],
+                                ref[key] if not isinstance(ref[key], dict) or "id" not in ref[key] else ref[key]["stress"], 1e-12)
+                if bad:
+                    fails.append(_fail(spec, f"frame that was never solved reports results ({key})",
+                                       f"frame {t}: {len(bad)} entries, e.g. {bad[0]}; history {ops}"))
+        # pressures
+        if t in last_sp:
+            sargs, pop, nss = last_sp[t]
+            seq = ([dict(op="bf", t=t, **sargs[0]), sargs[1]] if sargs else []) + [dict(op="bp", t=t), pop]
+            G, e = fresh_run(seq)
+            if e is not None:
+                fails.append(_fail(spec, "reference run raises", f"frame {t}: {e[0]} -> {type(e[1]).__name__}: {e[1]}"))
+                continue
+            ref = observe(G, t)
+            rel = 1e-6 if (sargs and sargs[1].get("m") == "lsq") else 1e-8
+            has_excl = bool(sargs and _excluded(G, t))
+            for name, detail in _static_pressure(F, t):
+                fails.append(_fail(spec, "static: " + name, detail))
+            for key in pres_keys:
+                a, b = oh[key], ref[key]
+                if isinstance(a, dict) and "id" in a:
+                    a, b = a["pressure"], b["pressure"]
+                bad = _diff_map(a, b, rel)
+                if bad:
+                    hist = f"history {ops}; pressure matrix of frame {t} built after stress solve {sargs}, solved with {pop}"
+                    if has_excl and nss > 1:
+                        fails.append(_fail(spec, f"pressures use the stale tension of an excluded interface ({key})",
+                                           f"frame {t}: {len(bad)} entries differ from a fresh object; {hist}", key=K_STALE))
+                    else:
+                        fails.append(_fail(spec, f"history changes what is reported ({key})",
+                                           f"frame {t}: {len(bad)} entries differ, e.g. {bad[0]}; {hist}"))
+            compared += 1
+        elif not any(r_[1]["op"] == "sp" and r_[1].get("t") == t for r_ in raised):     # a raising solve leaves partial state
+            if G0 is None:
+                G0, _ = fresh_run([])
+            ref = observe(G0, t)
+            for key in pres_keys:
+                a, b = oh[key], ref[key]
+                if isinstance(a, dict) and "id" in a:
+                    a, b = a["pressure"], b["pressure"]
+                if _diff_map(a, b, 1e-12):
+                    fails.append(_fail(spec, f"frame whose pressures were never solved reports pressures ({key})",
+                                       f"frame {t}; history {ops}"))
+    # one failure per key and case is enough
+    info.update(ops=len(ops), compared=compared, solved_frames=len(last_ss), pressure_frames=len(last_sp),
+                raised=len(raised), limit=round(limit, 4),
+                resolves=sum(1 for t, c in ss_count.items() if c > 1),
+                nontrivial=bool(compared > 0 and len(ops) > 2))
+    return dict(spec=spec, info=info, fails=fails)
+
+
+
+# ======================================================================================================
 # runner
 # ======================================================================================================
-_CASE = dict(B13=_case_b13, B12=_case_b12, B03=_case_b03)
+_CASE = dict(B13=_case_b13, B12=_case_b12, B03=_case_b03, B10=_case_b10)
 
 
 def _run_case(spec):
@@ -888,6 +1343,14 @@ def _run_case(spec):
             signal.alarm(0)
             signal.signal(signal.SIGALRM, old)
         np.seterr(**_NP_ERR)
+    seen, uniq = {}, []
+    for f in r["fails"]:                                             # one failure per key and case
+        if f["key"] in seen:
+            seen[f["key"]]["repeats"] = seen[f["key"]].get("repeats", 1) + 1
+        else:
+            seen[f["key"]] = f
+            uniq.append(f)
+    r["fails"] = uniq
     r["seconds"] = round(time.time() - t0, 3)
     return r
 
@@ -1028,7 +1491,7 @@ def _pick_drop(rng, ts, n):
 
 def cases_b13(tier, seed):
     rng = np.random.default_rng([13, seed])
-    count = 70 if tier == "quick" else 900
+    count = 80 if tier == "quick" else 1200
     specs = []
     for i in range(count):
         n = int(rng.integers(2, 7))
@@ -1046,7 +1509,7 @@ def cases_b13(tier, seed):
 
 def cases_b12(tier, seed):
     rng = np.random.default_rng([12, seed])
-    count = 110 if tier == "quick" else 1500
+    count = 400 if tier == "quick" else 6000
     specs = []
     for i in range(count):
         n = int(rng.integers(2, 7))
@@ -1118,6 +1581,114 @@ def cases_b03(tier, seed):
     return specs
 
 
+def _rand_history(rng, length, n=3):
+    fb, pb = {}, set()
+    ops = []
+    while len(ops) < length:
+        r = rng.random()
+        t = int(rng.integers(n))
+        if r < 0.27 or (not fb and r < 0.6):
+            al = bool(rng.random() < 0.4)
+            op = dict(op="bf", t=t, al=al, fit=str(rng.choice(["dlite", "taubinSVD"])))
+            fb[t] = op
+        elif r < 0.62 and fb:
+            t = int(rng.choice(sorted(fb)))
+            ms = [None, None, "lsq_linear"] + ([] if fb[t].get("al") else ["lsq"])
+            m = ms[int(rng.integers(len(ms)))]
+            op = dict(op="ss", t=t, m=m, b=(None if rng.random() < 0.5 else "velocity"), ad=bool(rng.random() < 0.5))
+            if rng.random() < 0.6:
+                op["an"] = bool(rng.random() < 0.3)
+        elif r < 0.75:
+            op = dict(op="bp", t=t)
+            pb.add(t)
+        elif r < 0.92 and pb:
+            t = int(rng.choice(sorted(pb)))
+            op = dict(op="sp", t=t, m="lagrange_pressure")
+            if rng.random() < 0.3:
+                op["an"] = bool(rng.random() < 0.5)
+        elif r >= 0.92:
+            al = bool(rng.random() < 0.3)
+            op = dict(op="sv", al=al)
+            for k in range(n):
+                fb[k] = dict(al=al)
+        else:
+            continue
+        ops.append(op)
+    if not any(o["op"] == "ss" for o in ops):
+        t = int(rng.choice(sorted(fb))) if fb else 0
+        if not fb:
+            ops.append(dict(op="bf", t=t, al=False, fit="dlite"))
+        ops.append(dict(op="ss", t=t, m=None, b=None, ad=False))
+    return ops
+
+
+def cases_b10(tier, seed):
+    rng = np.random.default_rng([10, seed])
+    count = 120 if tier == "quick" else 1600
+    specs = []
+    for i in range(count):
+        r = rng.random()
+        pts = int(rng.choice((1, 2, 3, 4)))
+        if r < 0.4:
+            ts = dict(kind="voronoi", n=int(rng.choice((16, 20, 25))), seed=int(rng.integers(1000)), pts=pts)
+        elif r < 0.7:
+            ts = dict(kind="hex_patch", seed=int(rng.integers(1000)), pts=pts)
+        else:
+            ts = dict(kind="flower", seed=int(rng.integers(1000)), pts=pts)
+        if rng.random() < 0.7:
+            ts["moebius"] = dict(strength=round(float(rng.uniform(0.2, 0.8)), 3), seed=int(rng.integers(1000)))
+        if rng.random() < 0.5:
+            ts["rot"] = round(float(rng.uniform(0, 2 * math.pi)), 4)
+        if tier == "quick":
+            length = int(rng.integers(2, 5))
+        else:
+            length = int(rng.integers(2, 9)) if i % 10 else int(rng.integers(9, 13))
+        renum, vorder = _rand_numbering(rng, 3, p_same=0.3)
+        specs.append(dict(check="B10", tissue=ts, n=3, times=_rand_times(rng, 3), fields=_rand_fields(rng, 3, lo=0.2, hi=0.7),
+                          renum=renum, vorder=vorder, ops=_rand_history(rng, length), limit=None))
+    # dedicated probes of the known defects
+    for i in range(2 if tier == "quick" else 6):
+        ts = dict(kind=("hex_patch", "flower")[i % 2], seed=int(rng.integers(1000)), pts=2,
+                  moebius=dict(strength=0.5, seed=int(rng.integers(1000))))
+        common = dict(check="B10", tissue=ts, n=3, times=[0.0, 1.0, 2.5], fields=_rand_fields(rng, 3, lo=0.2, hi=0.5),
+                      renum=[None] * 3, vorder=[None] * 3, limit=None)
+        specs.append(dict(common, ops=[dict(op="bf", t=1, al=False, fit="dlite"), dict(op="ss", t=1, m="fix_stress", b=None, ad=False)],
+                          probe="fix_stress"))
+        big = dict(common, tissue=dict(kind="voronoi", n=40, seed=int(rng.integers(1000)), pts=2,
+                                       moebius=dict(strength=0.4, seed=int(rng.integers(1000)))))
+        specs.append(dict(big, ops=[dict(op="bf", t=1, al=True, fit="dlite"), dict(op="ss", t=1, m="lsq", b=None, ad=False)],
+                          probe="lsq_exclusion", limit_frame=1,
+                          limit_candidates=[round(x * math.pi, 6) for x in (0.97, 0.95, 0.93, 0.9, 0.87, 0.85, 0.8)]))
+        specs.append(dict(common, ops=[dict(op="bf", t=1, al=False, fit="dlite"), dict(op="ss", t=1, m=None, b=None, ad=False),
+                                       dict(op="bp", t=1), dict(op="sp", t=1, m=None)], probe="pressure_default"))
+    # directed: the same frame solved without and then with an angle limit (and the reverse), optionally pressures
+    for i in range(8 if tier == "quick" else 60):
+        ts = dict(kind=("hex_patch", "flower", "voronoi")[i % 3], n=20, seed=int(rng.integers(1000)), pts=int(rng.choice((2, 3))),
+                  moebius=dict(strength=round(float(rng.uniform(0.3, 0.7)), 3), seed=int(rng.integers(1000))))
+        t = int(rng.integers(3))
+        first, second = (False, True) if i % 4 != 3 else (True, False)
+        ops = [dict(op="bf", t=t, al=first, fit="dlite"), dict(op="ss", t=t, m=None, b=("velocity" if i % 2 else None), ad=False),
+               dict(op="bf", t=t, al=second, fit="dlite"), dict(op="ss", t=t, m=(None if i % 3 else "lsq_linear"), b=None, ad=False)]
+        if i % 2:
+            ops += [dict(op="bp", t=t), dict(op="sp", t=t, m="lagrange_pressure")]
+        renum, vorder = _rand_numbering(rng, 3, p_same=0.3)
+        specs.append(dict(check="B10", tissue=ts, n=3, times=_rand_times(rng, 3), fields=_rand_fields(rng, 3, lo=0.2, hi=0.7),
+                          renum=renum, vorder=vorder, ops=ops, limit=None))
+    # directed: tensions and pressures of two or three frames solved one after the other on the same object
+    for i in range(4 if tier == "quick" else 30):
+        ts = dict(kind=("flower", "hex_patch")[i % 2], seed=int(rng.integers(1000)), pts=int(rng.choice((2, 3))),
+                  moebius=dict(strength=round(float(rng.uniform(0.3, 0.7)), 3), seed=int(rng.integers(1000))))
+        order = [int(x) for x in rng.permutation(3)][: 2 + i % 2]
+        ops = []
+        for t in order:
+            ops += [dict(op="bf", t=t, al=False, fit="dlite"), dict(op="ss", t=t, m=None, b=("velocity" if rng.random() < 0.5 else None), ad=False),
+                    dict(op="bp", t=t), dict(op="sp", t=t, m="lagrange_pressure")]
+        renum, vorder = _rand_numbering(rng, 3, p_same=0.3)
+        specs.append(dict(check="B10", tissue=ts, n=3, times=_rand_times(rng, 3), fields=_rand_fields(rng, 3, lo=0.2, hi=0.7),
+                          renum=renum, vorder=vorder, ops=ops, limit=None))
+    return specs
+
+
 # ======================================================================================================
 # registration
 # ======================================================================================================
@@ -1128,7 +1699,7 @@ def cases_b03(tier, seed):
                "limit (half the smallest junction spacing, 8 % of the extent, shape change < 9 %); independent random ids "
                "(with gaps) and dictionary orders per frame; 40 % of the series lose a border cell in a later frame; every "
                "junction and 12 other vertices per frame; right-hand side for static / dimensional / adimensional mode and "
-               "velocity_normalization 1, 2.5, 0.37; quick 70 series, thorough 900")
+               "velocity_normalization 1, 2.5, 0.37; quick 80 series, thorough 1200")
 def run_b13(tier, seed):
     res = _run_all(cases_b13(tier, seed))
     return _aggregate(res, "case = one time series; expected velocity = (position of the vertex that forsys' own mapping "
@@ -1145,7 +1716,7 @@ def run_b13(tier, seed):
                "one wild transition (1.5..6 x the limit) and 15 % losing a border cell for the unconditional clauses "
                "(injective, end points, pairings); cm on (zero-mean fields) / off; partial true initial_guess (5..60 % of the "
                "junctions) or one swapped pair; anisotropic stretch by 1.5..2.2 (shape change > 25 %) must give mapping None; "
-               "quick 110 series, thorough 1500")
+               "quick 400 series, thorough 6000")
 def run_b12(tier, seed):
     res = _run_all(cases_b12(tier, seed))
     return _aggregate(res, "case = one time series; the truth is the generator's base vertex identity carried through the "
@@ -1153,6 +1724,64 @@ def run_b12(tier, seed):
                            "frames, < 7.2 % of the extent, shape change < 9 %) is measured on the generated coordinates (after "
                            "recentring when cm=True); non-trivial = a true-successor comparison was made or the series has a "
                            "wild / dropping / stretching transition")
+
+
+@bounded("B03", ["C03"], "velocity-based inference recovers exactly known tensions (unit mobility) at the first, a middle and the last frame",
+         bound="arc/line tissues: Voronoi (20..40 sites), 9-cell hexagonal patch, 7-cell flower with 0..8 sample points per "
+               "interface, straight or Moebius-curved (strength 0.05..0.6; curved only with >= 1 sample point), in a pose "
+               "outside the sign-forcing class; positive tensions of mean one (uniform 0.5..1.5, log-normal, perturbed "
+               "equilibrium); series of 2..5 frames, inference at the first / middle / last frame, time step of the "
+               "determining transition = 30..80 % of the tracking limit / largest resultant, other steps random (unequal); "
+               "independent ids and dictionary orders per frame; methods default, 'lsq', 'lsq_linear' x adimensional off / on "
+               "(velocity_normalization = analytic mean junction speed); systems with 2 x junctions >= interfaces, full rank "
+               "and rounding tolerance <= 5e-2 only; quick 90 series (2 or 6 configurations each) + 6 probes of the excluded "
+               "class, thorough 1100 + 30")
+def run_b03(tier, seed):
+    res = _run_all(cases_b03(tier, seed))
+    out = _aggregate(res, "case = (tissue, tensions T, series); frame t+-1 = frame t with every used junction j moved by "
+                          "(time difference) x R_j, R_j = sum_e T_e tau_je from the generator's analytic unit tangents; other "
+                          "vertices follow a random field inside the tracking bounds.  Tolerance per tension i: "
+                          "3 x (5e-4 x sum_j |pinv(K)_ij| + sum_j |pinv(K)_ij| |dA T|_j) (+1e-5 for lmfit), K = augmented "
+                          "matrix [[A,1],[1,0]] (default, lsq) or its normal-equation form [[A^T A,1],[1,0]] (lsq_linear: A^T b "
+                          "is what gets rounded), maximised over multiplier free / clamped at 0, dA = measured difference "
+                          "between forsys' fitted tangents and the analytic ones (gate 1e-3); non-trivial = at least one "
+                          "configuration compared, outside the sign-forcing class")
+    kf_excl = sum(1 for r in res if r["info"].get("kf_excluded"))
+    kf_probe = sum(1 for r in res if r["info"].get("kf_case"))
+    ratios = [r["info"].get("worst_err_over_tol", 0) for r in res if r["info"].get("nontrivial")]
+    tols = [r["info"]["tol_max"] for r in res if r["info"].get("nontrivial")]
+    out.update(configurations_compared=sum(r["info"].get("solved", 0) for r in res),
+               excluded_sign_forcing_class=kf_excl, probes_inside_sign_forcing_class=kf_probe,
+               worst_error_over_tolerance=max(ratios, default=0.0),
+               tolerance_median=float(np.median(tols)) if tols else None, tolerance_max=max(tols, default=None))
+    return out
+
+
+@bounded("B10", ["C10"], "reported tensions / pressures are a pure function of frame data and the last call's arguments",
+         bound="3-frame series (unequal time steps, independent ids) of small arc tissues (Voronoi 16..25 sites, hexagonal "
+               "patch, flower; 1..4 sample points per interface, mostly Moebius-curved); random histories of "
+               "build_force_matrix(angle limit inf or the first of 0.8/0.75/0.7 pi that excludes interfaces, circle fit "
+               "dlite/taubinSVD), solve_stress(method default/'lsq'/'lsq_linear', static or velocity mode, adimensional "
+               "on/off, allow_negatives), build_pressure_matrix, solve_pressure(lagrange_pressure or none), "
+               "get_system_velocity_per_frame, over the three frames in any order; length 2..4 (quick), 2..8 and every tenth "
+               "9..12 (thorough); 'lsq' is not combined with a finite angle limit and 'fix_stress' is not used except in "
+               "dedicated probes (fix_stress, lsq with exclusion, solve_pressure without method); plus directed histories: the "
+               "same frame solved without and then with the angle limit (and reverse, 8 / 60), and two or three frames solved "
+               "for tensions and pressures one after the other (4 / 30); quick 120 random histories, thorough 1600")
+def run_b10(tier, seed):
+    res = _run_all(cases_b10(tier, seed))
+    out = _aggregate(res, "case = (series, history); for every frame the observables after the history (F.forces[t], "
+                          "frame.forces, get_tensions with/without border, BigEdge.tension, SmallEdge.tension, cell.pressure, "
+                          "F.pressures[t], get_pressures) are compared with a FRESH ForSys on fresh frames of the same tissues "
+                          "on which only build+solve with the arguments of the frame's last stress solve ran (pressures: the "
+                          "stress solve that preceded the last build_pressure_matrix, then build+solve pressure); frames never "
+                          "solved must look like an untouched object; relative tolerance 1e-9 (lsq 1e-6, pressures 1e-8); "
+                          "plus the static clauses on the object with history; non-trivial = history of >= 3 operations with "
+                          "at least one comparison")
+    out.update(histories_with_resolve=sum(1 for r in res if r["info"].get("resolves")),
+               frames_compared=sum(r["info"].get("compared", 0) for r in res),
+               operations_raising=sum(r["info"].get("raised", 0) for r in res))
+    return out
 
 
 def replay(failure):
